@@ -321,6 +321,20 @@ ADDED5 = {
 }
 for _k, _v in ADDED5.items():
     ADDED[_k] = ADDED.get(_k, "") + _v
+ADDED6 = {
+    "C01": " A directed history plays the ransomware script and the data-manipulation bot against a database whose file is deleted, corrupted "
+           "and restored.",
+    "C03": " A boundary-seed run: reset(seed=0) twice, episode against episode.",
+    "C05": " Directed histories send one instance of every leaf verb of the live tree twice back to back.",
+    "C08": " BoundedHops (a frame is handled at most ttl0 + 1 times) is checked on real switches in a layer-2 ring (two switches, parallel "
+           "links) by counting receptions per Frame object.",
+    "C12": " While the node is not on every interface's own enable() is called as well.",
+    "C15": " The content reported for deleted folders is judged (names shared by two deleted folders excepted).",
+    "C20": " The type of a declared file with an extension is derived from the text after the last dot (unknown extension = UNKNOWN); probes "
+           "declare names with two and three dots.",
+}
+for _k, _v in ADDED6.items():
+    ADDED[_k] = ADDED.get(_k, "") + _v
 for _k, _v in ADDED.items():
     if _k in CHECKS:
         CHECKS[_k]["text"] = CHECKS[_k]["text"] + _v
